@@ -1900,7 +1900,10 @@ class Join:
         :return:
             A copy of the join with the tables replaced.
         """
-        self.item = self.item.replace_table(current_table, new_table)
+        if self.item == current_table:
+            self.item = new_table  # type:ignore[assignment]
+        elif not isinstance(self.item, Table):
+            self.item = self.item.replace_table(current_table, new_table)
 
 
 class JoinOn(Join):
@@ -1954,6 +1957,8 @@ class JoinOn(Join):
         """
         if self.item == current_table:
             self.item = new_table  # type:ignore[assignment]
+        elif not isinstance(self.item, Table):
+            self.item = self.item.replace_table(current_table, new_table)
         self.criterion = self.criterion.replace_table(current_table, new_table)
 
 
@@ -1989,6 +1994,8 @@ class JoinUsing(Join):
         """
         if self.item == current_table:
             self.item = new_table  # type:ignore[assignment]
+        elif not isinstance(self.item, Table):
+            self.item = self.item.replace_table(current_table, new_table)
         self.fields = [field.replace_table(current_table, new_table) for field in self.fields]
 
 
